@@ -31,7 +31,8 @@ TC2B == /\ Line.ev = "c2b"
 TB2C == /\ Line.ev = "b2c"
         /\ LET p == produced + Line.n
                r == received + Line.rcv
-               bad == (IF ~Line.allwf THEN {"G_C06_DataPacketsWellFormed"} ELSE {})
+               \* (C16 says it of every packet the gateway sends: a header whose length is that of the bytes sent)
+               bad == (IF ~Line.allwf THEN {"G_C06_DataPacketsWellFormed", "G_C16_SentPacketsWellFormed"} ELSE {})
                       \cup (IF ~Line.prefix \/ r > p THEN {"G_C06_ClientGetsHostStream"} ELSE {})
                       \cup (IF ~ended /\ r # p THEN {"G_C06_ClientGetsAllOfIt"} ELSE {})
            IN /\ viol' = viol \cup {<<l, g, Line.transport, Line.sizecls>> : g \in bad}
